@@ -228,6 +228,13 @@ def gen_case(rng, tier):
     dyn = rng.random() < 0.3
     dd = rng.choice([0, 0] + list(range(rank))) if dyn else 0
     case = {"tb": tb, "el": rng.choice(list(EL)), "dyn": dyn, "dyn_dim": dd, "sides": [gen_side(rng, tb, dyn, dd) for _ in range(2)]}
+    if not dyn and rng.random() < 0.06:
+        # a source that maps several logical elements onto one address: sliding windows (equal or small strides in
+        # different dimensions)
+        shape = shape_of(tb)
+        ds = [rng.choice([1, 1, n_, 2, 3]) for n_ in shape]  # (stride 0 is left out: TSL has no zero steps)
+        case["sides"][0] = {"kind": "strided", "off": rng.choice([0, 0, 3]), "dynmarks": [], "dimstrides": ds, "steps": strided_steps(tb, ds),
+                            "dyn_stride": [False] * rank, "dyn_off": False, "overlapping": True}
     case["env"] = {"base": [0x1000 + 8 * rng.randrange(16), 0x20000 + 8 * rng.randrange(16)], "seed": rng.randrange(1 << 30), "shuffle": rng.random() < 0.8, "dyn_bound": rng.choice([1, 2, 3, 4])}
     if not dyn and rng.random() < 0.15:
         # a second copy in the same function: same shape and element type, another tiling; one plain (non-TSL) side of the
@@ -243,7 +250,7 @@ def gen_case(rng, tier):
                 sd["steps"] = strided_steps(tb2, sd["dimstrides"])
             else:
                 sd["steps"] = row_major_steps(tb2)
-            second["sides"][rng.choice([i, i, 1 - i])] = sd
+            second["sides"][i if sd.get("overlapping") else rng.choice([i, i, 1 - i])] = sd
         case["second"] = second
     return case
 
@@ -333,10 +340,12 @@ def execute(case):
             for idx in all_indices(shape):
                 a = cs["env"]["base"][i] + address(idx, tb, steps, side["off"]) * eb
                 for j in range(eb):
-                    if (a + j) in fp:
+                    if (a + j) in fp and not (i == 0 and side.get("overlapping")):
                         raise RuntimeError("generator produced a self-overlapping layout")
                     fp.add(a + j)
-                    m.mem[a + j] = ("src", which, idx, j) if i == 0 else ("poison",)
+                    # source bytes are named by their address: a source may map several logical elements onto one
+                    # (broadcast, sliding window)
+                    m.mem[a + j] = ("src", which, a + j) if i == 0 else ("poison",)
             dstr = [steps[d][-1] for d in range(len(tb))]
             descs.append(Desc(cs["env"]["base"][i], side["off"] if side["kind"] == "strided" else 0, shape, dstr, eb))
     env = case["env"]
@@ -351,11 +360,13 @@ def execute(case):
         return out
     for which, cs in enumerate(copies):
         _, tb, steps = lay[2 * which + 1]
+        _, stb, ssteps = lay[2 * which]
         side = cs["sides"][1]
         for idx in all_indices(shape_of(tb)):
             a = cs["env"]["base"][1] + address(idx, tb, steps, side["off"]) * eb
+            sa = cs["env"]["base"][0] + address(idx, stb, ssteps, cs["sides"][0]["off"]) * eb
             for j in range(eb):
-                if m.mem[a + j] != ("src", which, idx, j):
+                if m.mem[a + j] != ("src", which, sa + j):
                     out.update(status="violation", oracle="element-position", message=f"copy {which}: logical element {idx} byte {j}: destination address {a + j:#x} holds {m.mem[a + j]!r}")
                     return out
     out["steps"] = m.steps
@@ -455,7 +466,7 @@ META = {
         "A7 snax_dma_2d_transfer copies `size` bytes x `repeat` rows with independent strides, rows in any order",
         "A8 (dynamic TSL steps only) going from the last dimension to the first and from the innermost tile outwards, each dynamic step continues where the previous one ended, starting at (largest static step) x (bound of that stride; the largest bound if several strides share the step)",
         "dyn2: static steps are laid out for a capacity (the largest run-time bound generated), run-time bounds are 1..capacity",
-        "source and destination are different, injective layouts over disjoint memory; dynamic strides are the dense ones the generator chose",
+        "destination layouts are injective; sources are injective except in 6% of the static cases (sliding-window strides: equal or small strides in different dimensions); source and destination lie in disjoint memory; dynamic strides are the dense ones the generator chose",
         "no schedule or interleaving enters this property: distinct_interleavings = 1",
     ],
     "interleavings": "single core: 1",
